@@ -471,3 +471,41 @@ def split_concat(tier, seed):
     r = common.result(cases, cases, fails, "mesh family x (9 submeshes, split with 2 engines, 4 concatenations)", exhaustive=True)
     r["failures"] = fails
     return r
+
+
+# ----------------------------------------------------------------------------- update_faces for every face count (lambda arrays, filter axioms)
+
+
+@contract("C07", BASE + ".update_faces", name="boolean-mask-keeps-rows-aligned[all N]")
+def update_faces_all_n(h):
+    """every face count N, every boolean mask: the surviving faces, every per-face attribute
+    of matching length and the cached face normals are the SAME rows of the originals (row j
+    of each result is row fid'[j] of its source), in increasing original order"""
+    N = h.length("N")
+    F = h.lints("F", N, (3,))
+    A = h.lreals("A", N, ())
+    Nrm = h.lreals("Nr", N, (3,))
+    M = h.lbools("M", N, ())
+    fid = h.np.arange(N) if h.mode == "sym" else rnp.arange(int(N))
+    vis = _Rec() if h.mode != "sym" else Ghost(update_faces=lambda mask: None)
+    g = _MeshGhost(faces=F, visual=vis, _cache=_Cache(face_normals=Nrm), _data={"faces": F}, face_attributes={"tag": A, "fid": fid, "scalar": 3.0}, face_normals=None)
+    h.method(BASE + ".update_faces")(g, M)
+    if g.faces is F:
+        # nothing removed: only allowed when the mask is all True
+        h.check("no-op-only-for-all-true-mask", h.forall(N, lambda i: M[i]))
+        return
+    F2, A2, fid2, N2rm = g.faces, g.face_attributes["tag"], g.face_attributes["fid"], g.face_normals
+    n2 = F2.shape[0]
+
+    def row(j):
+        o = fid2[j]
+        conds = [h.all([o >= 0, o < N]), M[o] if h.mode == "sym" else bool(M[int(o)])]
+        conds += [h.exact(F2[j, k], F[o, k]) for k in range(3)]
+        conds.append(h.eq(A2[j], A[o]))
+        if N2rm is not None:
+            conds += [h.eq(N2rm[j, k], Nrm[o, k]) for k in range(3)]
+        return conds
+
+    h.check("row-j-of-every-store-is-original-row-fid[j]", h.forall(n2 if h.mode == "sym" else len(F2), row))
+    h.check("normals-kept", N2rm is not None)
+    h.check("scalar-attribute-untouched", g.face_attributes["scalar"] == 3.0)
